@@ -250,7 +250,7 @@ class C12(E1Prop):
         if replay:
             return extra
         op = {'op': 'lift_and_settle', 'dt': 1}
-        extra.append(op)
+        getattr(w, 'final_sink', extra).append(op)
         self.apply(w, op)
         return extra
 
